@@ -35,7 +35,11 @@ INITIAL_MISSED = {"C01-m1", "C03-m2", "C04-m1", "C05-m1", "C08-m1", "C09-m1", "C
                   "C01-r10m2", "C01-r10m3", "C02-r10m2", "C02-r10m3", "C04-r10m1", "C04-r10m3", "C05-r10m2", "C05-r10m3", "C06-r10m2",
                   "C06-r10m3", "C07-r10m2", "C08-r10m1", "C09-r10m1", "C09-r10m2", "C09-r10m3", "C10-r10m3", "C11-r10m1", "C11-r10m2",
                   "C11-r10m3", "C12-r10m1", "C12-r10m2", "C13-r10m2", "C14-r10m2", "C15-r10m1", "C15-r10m2", "C16-r10m1", "C16-r10m2",
-                  "C18-r10m3", "C19-r10m2"}
+                  "C18-r10m3", "C19-r10m2",
+                  # eleventh round (the least-touched cells of each property)
+                  "C01-r11m1", "C02-r11m1", "C02-r11m2", "C03-r11m1", "C03-r11m2", "C03-r11m3", "C04-r11m1", "C04-r11m3", "C05-r11m3",
+                  "C06-r11m1", "C08-r11m1", "C09-r11m1", "C10-r11m2", "C15-r11m2", "C15-r11m3", "C16-r11m1", "C16-r11m3", "C17-r11m1",
+                  "C20-r11m1", "C20-r11m3"}
 # --seed N: run at another VERIF_SEED and only print the verdicts (meta.json untouched) - finds catches that depend on luck
 args = sys.argv[1:]
 seed = None
